@@ -23,6 +23,57 @@ FILL = {"zeros", "ones", "full", "empty"}
 
 
 DERIVED: Dict[Tuple[str, str], Optional[Dim]] = {}
+_ALIAS: Dict[int, Dict[str, str]] = {}
+
+
+def canon(vfg, name: str) -> str:
+    """Canonical name of a configuration extent.  Names are merged when the code says they hold the same value:
+    `self.A = B` / `self.A = x.B` in an __init__ (A ~ B) and `@property P: return self.A` (P ~ A); a leading
+    underscore is ignored.  So a private storage name never makes two spellings of one extent look different."""
+    name = name.lstrip("_")
+    if vfg is None:
+        return name
+    tree = vfg.tree
+    al = _ALIAS.get(id(tree))
+    if al is None:
+        import ast as _ast
+        parent: Dict[str, str] = {}
+
+        def find(x):
+            while parent.get(x, x) != x:
+                parent[x] = parent.get(parent[x], parent[x])
+                x = parent[x]
+            return x
+
+        def union(a, b):
+            a, b = find(a.lstrip("_")), find(b.lstrip("_"))
+            if a != b:
+                # keep the shorter / lexicographically smaller public-looking name as representative
+                r, o = sorted((a, b), key=lambda z: (len(z), z))
+                parent[o] = r
+                parent.setdefault(r, r)
+
+        for ci in tree.classes.values():
+            init = ci.methods.get("__init__")
+            if init is not None:
+                pnames = {a.arg for a in init.node.args.args + init.node.args.kwonlyargs}
+                for st in _ast.walk(init.node):
+                    if isinstance(st, _ast.Assign) and len(st.targets) == 1:
+                        t, v = st.targets[0], st.value
+                        if isinstance(t, _ast.Attribute) and isinstance(t.value, _ast.Name) and t.value.id == "self":
+                            if isinstance(v, _ast.Name) and v.id in pnames:
+                                union(t.attr, v.id)
+                            elif isinstance(v, _ast.Attribute):
+                                union(t.attr, v.attr)
+            for pname, f in ci.methods.items():
+                if f.is_property and len(f.node.body) >= 1:
+                    rets = [n for n in _ast.walk(f.node) if isinstance(n, _ast.Return) and n.value is not None]
+                    if len(rets) == 1 and isinstance(rets[0].value, _ast.Attribute) and isinstance(rets[0].value.value, _ast.Name) \
+                            and rets[0].value.value.id == "self":
+                        union(pname, rets[0].value.attr)
+        al = {k: find(k) for k in list(parent)}
+        _ALIAS[id(tree)] = al
+    return al.get(name, name)
 
 
 def derived_attr(vfg, t: T) -> Optional[Dim]:
@@ -46,8 +97,8 @@ def derived_attr(vfg, t: T) -> Optional[Dim]:
             k = e.right.value if isinstance(e.op, _ast.Add) else -e.right.value
             e = e.left
         nm = e.id if isinstance(e, _ast.Name) else (e.attr if isinstance(e, _ast.Attribute) else None)
-        if nm is not None and nm.lstrip("_") != name.lstrip("_"):
-            out = (nm.lstrip("_"), k)
+        if nm is not None and canon(vfg, nm) != canon(vfg, name):
+            out = (canon(vfg, nm), k)
     DERIVED[key] = out
     return out
 
@@ -64,7 +115,7 @@ def dim_of(t: T, vfg=None) -> Optional[Dim]:
         dv = derived_attr(vfg, b) if vfg is not None else None
         if dv is not None:
             return (dv[0], dv[1] + k)
-        return (b.args[1].lstrip("_"), k)
+        return (canon(vfg, b.args[1]), k)
     if b.kind == "call" and ext_name(b) == "builtins.len" and b.args[1]:
         return ("len(" + show(b.args[1][0], 2)[:40] + ")", k)
     if b.kind in ("bin", "index", "proj", "param", "call"):
@@ -93,9 +144,9 @@ def tuple_attr(vfg, t: T) -> Shape:
             if isinstance(e, _ast.Constant) and isinstance(e.value, int):
                 dims.append((None, e.value))
             elif isinstance(e, _ast.Name):
-                dims.append((e.id.lstrip("_"), 0))
+                dims.append((canon(vfg, e.id), 0))
             elif isinstance(e, _ast.Attribute):
-                dims.append((e.attr.lstrip("_"), 0))
+                dims.append((canon(vfg, e.attr), 0))
             else:
                 dims = None
                 break
